@@ -28,6 +28,7 @@ from . import cpu_count, get_context
 from . import util
 from .common import (
     TERM_SIGNAL, human_status, pickle_loads, reset_signals, restart_state,
+    _should_have_exited,
 )
 from .compat import get_errno, mem_rss, send_offset
 from .einfo import ExceptionInfo
@@ -361,6 +362,12 @@ class Worker:
                     try:
                         result = (True, prepare_result(fun(*args, **kwargs)))
                     except BaseException:
+                        if _should_have_exited[0]:
+                            # SystemExit raised by the termination signal
+                            # handler (common._shutdown_cleanup): the worker
+                            # must exit, not report a task failure and go on
+                            # to take further jobs.
+                            raise
                         result = (False, ExceptionInfo())
                     try:
                         put((READY, (job, i, result, inqW_fd)))
@@ -419,6 +426,10 @@ class Worker:
 
         if self.initializer is not None:
             self.initializer(*self.initargs)
+
+        # The "termination handler has run" flag is per process: a forked
+        # worker must not inherit a stale value from its parent.
+        _should_have_exited[0] = False
 
         # Make sure all exiting signals call finally: blocks.
         # This is important for the semaphore to be released.
